@@ -52,7 +52,23 @@ def tok(v):
 
 
 def sstr(s):
-    return '"' + s.replace("\\", "\\\\").replace('"', '\\"').replace("\n", "\\n") + '"'
+    out = []
+    for c in s:
+        if c == "\\":
+            out.append("\\\\")
+        elif c == '"':
+            out.append('\\"')
+        elif c == "\n":
+            out.append("\\n")
+        elif c == "\r":
+            out.append("\\r")
+        elif c == "\t":
+            out.append("\\t")
+        elif ord(c) < 32 or ord(c) >= 127:
+            out.append("\\u{%x}" % ord(c))
+        else:
+            out.append(c)
+    return '"' + "".join(out) + '"'
 
 
 def src(v):
@@ -350,6 +366,10 @@ class Raises(Exception):
     pass
 
 
+# Unicode White_Space (Rust char::is_whitespace); note that Python's str.split() also splits at U+001C..1F
+WHITE_SPACE = set(map(chr, [9, 10, 11, 12, 13, 32, 0x85, 0xA0, 0x1680, 0x2028, 0x2029, 0x202F, 0x205F, 0x3000] + list(range(0x2000, 0x200B))))
+
+
 def elems(v):
     if v[0] == "S":
         return [S(c) for c in v[1]]
@@ -512,7 +532,20 @@ def pyref(name, params, args):
         if p[0] == "":
             raise Raises()
         return L([S(w) for w in x[1].split(p[0])])
-    if name == "words": return L([S(w) for w in x[1].split()])
+    if name == "words":
+        ws, cur = [], ""
+        for ch in x[1]:
+            if ch in WHITE_SPACE:
+                if cur:
+                    ws.append(cur)
+                cur = ""
+            else:
+                cur += ch
+        return L([S(w) for w in ws + ([cur] if cur else [])])
+    if name in ("unwords", "unlines"):
+        if not all(e[0] == "S" for e in l):
+            raise Raises()
+        return S(" ".join(e[1] for e in l)) if name == "unwords" else S("".join(e[1] + "\n" for e in l) if l else "\n")
     if name == "lines":
         ps = x[1].split("\n")
         if ps[-1] == "":
@@ -545,7 +578,7 @@ def call_src(name, p, a):
     unary = {"flatten": "flatten", "count_truthy": "count", "any_truthy": "any", "all_truthy": "all", "transpose": "transpose",
              "enumerate": "enumerate", "sum": "sum", "product": "product", "min": "min", "max": "max", "sort": "sort",
              "reverse": "reverse", "unique": "unique", "group_eq": "group", "prefixes": "prefixes", "suffixes": "suffixes",
-             "frequencies": "frequencies", "words": "words", "lines": "lines", "permutations": "permutations",
+             "frequencies": "frequencies", "words": "words", "lines": "lines", "unwords": "unwords", "unlines": "unlines", "permutations": "permutations",
              "subsequences": "subsequences"}
     if name in unary:
         return f"{unary[name]}({x})"
@@ -822,6 +855,43 @@ def gen_cases(ctx):
             cases.append(make_case("words", [], [S("".join(t))]))
         for t in itertools.product("a\nb", repeat=n):
             cases.append(make_case("lines", [], [S("".join(t))]))
+    # richer text: carriage returns, tabs, runs of separators, leading/trailing separators, every Unicode
+    # white-space character, a control character that is NOT white space (U+001C), non-ASCII letters
+    for n in range(0, 6 if quick else 7):
+        for t in itertools.product("a\r\n", repeat=n):
+            s_ = "".join(t)
+            cases.append(make_case("lines", [], [S(s_)]))
+            if n <= 4:
+                for sep in ("\n", "\r\n", "\n\r", "\r"):
+                    cases.append(make_case("split", [sep], [S(s_)]))
+    for n in range(0, 5 if quick else 6):
+        for t in itertools.product("a \t\r", repeat=n):
+            cases.append(make_case("words", [], [S("".join(t))]))
+    exotic = ["a", "b", "\u00e9", "\u4e2d", " ", "  ", "\t", "\n", "\r", "\r\n", "\n\r", "\n\n", "\x0b", "\x0c", "\x1c", "\x85",
+              "\xa0", "\u1680", "\u2003", "\u2028", "\u2029", "\u202f", "\u205f", "\u3000", "\u200b", ","]
+    for ch in exotic:
+        for tpl in ("%s", "a%s", "%sa", "a%sb", "%sa%s", "a%s%sb", "a%sb%s"):
+            s_ = tpl.replace("%s", ch)
+            for name in ("words", "lines"):
+                cases.append(make_case(name, [], [S(s_)]))
+            for sep in (ch, "\n", " ", "\u00e9"):
+                cases.append(make_case("split", [sep], [S(s_)]))
+    for _ in range(300 if quick else 2000):
+        s_ = "".join(ctx.rng.choice(exotic) for _ in range(ctx.rng.randint(1, 8)))
+        cases.append(make_case("words", [], [S(s_)]))
+        cases.append(make_case("lines", [], [S(s_)]))
+        cases.append(make_case("split", [ctx.rng.choice(exotic)], [S(s_)]))
+    tpieces = ["", "a", "\u00e9b", "a\r", " a ", "\n", "a\nb", "\t"]
+    for n in range(0, 4):
+        for t in (itertools.product(tpieces, repeat=n) if n <= 2 else [[ctx.rng.choice(tpieces) for _ in range(n)] for _ in range(40)]):
+            ps_ = L([S(w) for w in t])
+            cases.append(make_case("unwords", [], [ps_]))
+            cases.append(make_case("unlines", [], [ps_]))
+            for sep in ("\n", "\r\n", " ", "\u00e9", ""):
+                cases.append(make_case("join", [sep], [ps_]))
+    for x in (S("a\rb"), Q("t", [S("a"), S("b\r")])):
+        cases.append(make_case("unwords", [], [x]))
+        cases.append(make_case("unlines", [], [x]))
     pieces = ["", "a", "b", "ab", "a b"]
     for n in range(0, 4):
         for t in itertools.product(pieces, repeat=n):
